@@ -3,8 +3,28 @@
 (2) confirmation in a scratch worktree under /tmp (demo passes clean, fails with the change, existing suite passes with the change),
 (3) run the property's quick check with the change applied to /repo's working tree (undone straight afterwards) and record whether
 it reports a violation.  Writes seeded/<P>-<m>/{patch.diff, demo.rs, meta.json}.  usage: harvest_seeds.py [P ...]"""
-import json, os, subprocess, sys, shutil, re
+import json, os, subprocess, sys, shutil, re, signal
 ROOT = os.path.dirname(os.path.dirname(os.path.abspath(__file__)))
+# A seeded change is applied to /repo's working tree only between writing and removing this marker; the
+# termination signals are turned into exceptions so that the `finally` below runs, the next run of this tool restores the tree
+# first when it finds the marker, and `./check` prints a note on stderr while it exists.  Reason: a run of this tool that was
+# killed in between once left a seeded change in /repo, where it was then committed as if it belonged to the code (DESIGN.md).
+MARK = os.path.join(ROOT, "work", "SEEDED_CHANGE_IN_REPO")
+
+
+def _term(signum, frame):
+    raise KeyboardInterrupt("signal %d" % signum)
+
+
+for _s in (signal.SIGTERM, signal.SIGHUP, signal.SIGINT):
+    signal.signal(_s, _term)
+
+
+def restore_repo():
+    """undo whatever a seeded change left in /repo's working tree (tracked files only; nothing is committed by this tool)"""
+    sh("git -C /repo checkout -- .")
+    if os.path.exists(MARK):
+        os.remove(MARK)
 INC = os.path.join(ROOT, "seeded", "_incoming")
 ENV = dict(os.environ, CARGO_NET_OFFLINE="true", CARGO_TARGET_DIR="/tmp/confirm_target")
 
@@ -49,6 +69,9 @@ def main():
         mode = args[0]; args = args[1:]
     props = args or sorted(p for p in os.listdir(INC) if p.startswith("C"))
     head = sh("git -C /repo log --format=%h -1")[1].strip()
+    if os.path.exists(MARK):
+        print("a previous run left %s; restoring /repo's working tree first" % MARK, flush=True)
+        restore_repo()
     for P in props:
         only = set(filter(None, os.environ.get("HARVEST_ONLY", "").split(",")))
         for m in sorted(x for x in os.listdir(os.path.join(INC, P)) if re.fullmatch(r"m\d", x) and (not only or x in only)):
@@ -68,9 +91,11 @@ def main():
             elif mode == "confirm":
                 out["confirmation"] = confirm(d, patch)
             else:
-                sh("git -C /repo checkout -- .")
-                rc, _ = sh("git -C /repo apply %s" % patch)
+                restore_repo()
+                os.makedirs(os.path.dirname(MARK), exist_ok=True)
+                json.dump({"pid": os.getpid(), "patch": patch}, open(MARK, "w"))
                 try:
+                    rc, _ = sh("git -C /repo apply %s" % patch)
                     rc, o = sh("./check %s --tier quick" % P, cwd=ROOT, timeout=3000, env=dict(os.environ))
                     viol = [l for l in o.split("\n") if l.startswith("VIOLATION")]
                     first = [l.strip() for l in o.split("\n") if "violation:" in l][:1]
@@ -78,7 +103,7 @@ def main():
                     out["status"] = "detected" if rc == 1 and viol else "missed"
                     out["check_output"] = {"violation_lines": len(viol), "no_failing_input_found": any("no-failing-input-found" in l for l in viol), "first": (first[0][:300] if first else None)}
                 finally:
-                    sh("git -C /repo checkout -- .")
+                    restore_repo()
             os.makedirs(dst, exist_ok=True)
             shutil.copy(patch, os.path.join(dst, "patch.diff"))
             if patch == adapted:
